@@ -1335,6 +1335,12 @@ void Node::process_pending_uploads() {
         auto request = pending_uploads_.front();
         pending_uploads_.pop_front();
 
+        if (active_uploads_.find(make_upload_key(request.peer_id, request.chunk_id)) != active_uploads_.end()) {
+            // Same chunk already in flight to this peer: the duplicate request is satisfied by
+            // that transfer; sending the chunk again would sidestep the upload limits.
+            continue;
+        }
+
         if (!can_dispatch_upload(request.peer_id)) {
             pending_uploads_.push_back(std::move(request));
             continue;
